@@ -26,9 +26,10 @@ MANIFEST = {
             "nothing (pop-then-reload refuted); the harness brackets reader calls with the writer's operation number. "
             "Bulk lookups: per-index slots / locked appends return every existing item exactly once for every schedule, racy append "
             "provably loses items; the translator classifies every goroutine fan-out of the listed files (none racy). Complete blocks: a "
-            "getter that reads all parts of a block through one snapshot returns exactly the committed block or not-found in every "
-            "state of every history of batches, separate reads provably return a block no state contains; the translator checks that "
-            "every multi-part getter reads through one db snapshot. Tie to the running "
+            "small model lemma (a read whose Gets all hit one state returns that state's block or not-found - true by unfolding; its "
+            "quantifiers over histories add nothing) contrasted with a proved torn-read witness for separate Gets; the actual content for "
+            "the code is the generated obligation multi_reads_ok (every multi-part getter reads through one db snapshot) and the "
+            "torn scenario of the harness. Tie to the running "
             "code: harness built with -race drives the real Chain/DataAccess on in-memory pebble (N readers + one writer adding/removing "
             "blocks; concurrent GetBlockHeaders / GetBlockHeadersByHeights / GetTransactions / GetBlocksBetweenHeight compared as multisets "
             "with the sequential answer), certificate pool add/select/cleanup/upgrade, event publish/subscribe/close with live "
@@ -40,7 +41,8 @@ MANIFEST = {
     "note": "Partial by nature: the Go memory model and scheduler are outside Coq; the theorem is about skeletons (lock discipline), "
             "data-race freedom itself is sampled by the race detector on the harness schedules. Assumptions: sync.RWMutex is "
             "writer-preferring; selects with a default or quit arm are steps (Guarded), every other channel operation is a Block; that "
-            "the quit arm of subscription.send is signalled before the remover locks is an argument in the docs, not a theorem; calls into "
+            "the remover of a subscription closes done before it locks the send mutex is pinned on the source (generated obligation "
+            "close_signals_before_locking), not derived in the semantics (no signalling primitive); calls into "
             "untranslated packages return; the generated-instance theorems (safe_*, fanouts, multi_reads, single sections, lock never "
             "held while waiting) are checker decisions on translator output for the current source; the progress theorem releases "
             "every Block through the environment (it does not relate errgroup.Wait to its children); "
@@ -53,8 +55,12 @@ SCENARIOS = ["cache", "bulk", "torn", "certpool", "events", "evclose", "evquit",
 BLOCKED_HDR = re.compile(r"^goroutine \d+ \[(semacquire|sync\.Mutex\.Lock|sync\.RWMutex\.R?Lock|chan receive|chan send|select|sync\.WaitGroup\.Wait|sync\.Cond\.Wait)")
 
 
-def blocked_in_code_under_test(dump):
-    """some goroutine waits on a lock/channel and the innermost frame that is neither runtime nor sync belongs to lisk-engine/pkg"""
+def blocked_in_code_under_test(dump, name=""):
+    """some goroutine waits on a lock/channel and the innermost frame that is neither runtime nor sync belongs to the code under
+    test. Every started p2p.Connection permanently parks service goroutines in [select] inside lisk-engine/pkg/p2p (message
+    handlers, connection-gater sweep, ...): pkg/p2p frames never count; for syncfan the frame must be in pkg/consensus/sync or
+    pkg/blockchain (what the scenario is about)."""
+    want = ("lisk-engine/pkg/consensus/sync", "lisk-engine/pkg/blockchain") if name == "syncfan" else ("lisk-engine/pkg/",)
     for g in (dump or "").split("\n\n"):
         lines = g.strip().splitlines()
         if not lines or not BLOCKED_HDR.match(lines[0]):
@@ -64,93 +70,16 @@ def blocked_in_code_under_test(dump):
                 continue
             if fr.startswith(("runtime.", "sync.", "internal/")):
                 continue
-            if "lisk-engine/pkg/" in fr:
+            if "lisk-engine/pkg/p2p" in fr:
+                break
+            if any(w in fr for w in want):
                 return True
             break
     return False
 
 
-def run_scenario(ck, binp, name, readers, ms, rounds, tag, wd=5000):
-    for f in glob.glob(os.path.join(ck.work, "race_%s.*" % tag)):
-        os.remove(f)
-    env = {"GORACE": "log_path=%s exitcode=0 halt_on_error=0" % os.path.join(ck.work, "race_" + tag)}
-    recs = ck.run_harness(binp, ["-scenario", name, "-readers", str(readers), "-ms", str(ms), "-rounds", str(rounds), "-watchdog", str(wd)],
-                          timeout=900, out_name=tag + ".jsonl", env_extra=env)
-    params = {"scenario": name, "readers": readers, "ms": ms, "rounds": rounds, "seed": ck.seed}
-    if recs is None:
-        return
-    for r in recs:
-        if r.get("sub"):
-            continue  # mismatch detail records are attached to the summary failure below
-        ops = int(r.get("ops", 0))
-        ck.count(ops)
-        if r.get("ok", False) and ops < (1 if name == "syncfan" else 5):  # syncfan counts whole sync rounds
-            ck.fail_obligation("harness-volume:" + name, "scenario %s completed only %d operations: inconclusive, not a pass" % (name, ops))
-        if ops > 0:
-            ck.nontrivial((name, readers, ms, rounds))
-        ck.extra.setdefault("scenarios", []).append({"k": name, "ops": ops, "ok": r.get("ok"), "params": r.get("params")})
-        if not r.get("ok", False) and str(r.get("what", "")).startswith("harness:"):
-            if not tag.endswith("-retry"):
-                ck.notes.append("scenario %s: harness-internal failure (%s), retried" % (name, r.get("what", "")[:120]))
-                return run_scenario(ck, binp, name, readers, ms, rounds, tag + "-retry")
-            ck.fail_obligation("harness-internal:" + name, "scenario %s could not be set up twice (%s): inconclusive, rerun" % (name, r.get("what", "")[:300]))
-            continue
-        # never a VIOLATION from load alone, never lose a real hang: a hang (or a sync round that timed out) is re-run once
-        # with a six times longer watchdog; the ORIGINAL stays a failure unless the re-run passes and the first run's dump
-        # shows no goroutine blocked on a lock/channel inside the code under test
-        timeoutish = r.get("hang") or (name == "syncfan" and "Sync returned" in str(r.get("what", "")))
-        if not r.get("ok", False) and timeoutish and not tag.endswith("-retry"):
-            mark = len(ck.failures)
-            run_scenario(ck, binp, name, readers, ms, rounds, tag + "-retry", wd=30000)
-            retry_ok = len(ck.failures) == mark
-            del ck.failures[mark:]
-            blocked = blocked_in_code_under_test(r.get("dump", ""))
-            if retry_ok and not blocked:
-                ck.notes.append("scenario %s: no progress within %d ms (%s), no goroutine blocked in the code under test, re-run with 30 s passed: "
-                                "treated as load" % (name, wd, str(r.get("what", ""))[:80]))
-                continue
-        if not r.get("ok", False):
-            details = [x for x in recs if x.get("sub")][:3]
-            if r.get("hang"):
-                key, what = "c20:%s:hang" % name, "scenario %s made no progress within the watchdog (deadlock); goroutine dump in the replay" % name
-            elif r.get("panic"):
-                key, what = "c20:%s:panic" % name, "scenario %s: panic in code under test: %s" % (name, r["panic"][:300])
-            elif details:
-                d = details[0]
-                key = "c20:%s:mismatch:%s" % (name, d["sub"])
-                what = "%s returned %s for request %s, sequential answer %s (lost/duplicated items)" % (d["sub"], d.get("got"), d.get("req"), d.get("want"))
-            else:
-                w = r.get("what", "")
-                m = re.match(r"([a-z][a-z-]+): ", w)
-                key, what = "c20:%s:%s" % (name, m.group(1) if m else "check"), "scenario %s failed: %s" % (name, w[:400])
-            f = dict(kind="schedule", key=key, what=what, case=dict(params, record=r, details=details),
-                     expected="no hang, no panic, multiset equality with the sequential answer", observed=r.get("what", ""),
-                     theorem_or_correspondence="harness/cmd/c20 scenario %s (-race) vs Conc/Progress + Conc/SharedAppend" % name)
-            f["spec_violated"] = True
-            ck.failures.append(f)
-    reports = []
-    for f in sorted(glob.glob(os.path.join(ck.work, "race_%s.*" % tag))):
-        txt = open(f, errors="replace").read()
-        if "DATA RACE" in txt:
-            reports.append(txt)
-    seen_sites = set()
-    for txt in [x for rp in reports for x in rp.split("==================") if "DATA RACE" in x]:
-        m = re.search(r"lisk-engine/(pkg/\S+?)\(\)", txt)
-        site = m.group(1) if m else None
-        if site is None:  # a race inside the harness itself says nothing about the property
-            ck.fail_obligation("harness-race:" + name, "race report without a frame of the code under test (harness-internal): inconclusive: " + txt[:500])
-            continue
-        if site in seen_sites:
-            continue
-        seen_sites.add(site)
-        f = dict(kind="schedule", key="c20:%s:race:%s" % (name, site),
-                 what="Go race detector reported a data race in scenario %s at %s" % (name, site),
-                 case=dict(params, race_report=txt[:6000]), expected="no race report", observed="WARNING: DATA RACE",
-                 theorem_or_correspondence="harness/cmd/c20 scenario %s built with -race" % name)
-        f["spec_violated"] = True
-        ck.failures.append(f)
-    ck.extra.setdefault("race_reports", 0)
-    ck.extra["race_reports"] += sum(t.count("DATA RACE") for t in reports)
+def collect_races(ck, name, tag, params):
+    collect_races(ck, name, tag, params)
 
 
 def run(ck):
